@@ -11,7 +11,7 @@ target=/repo
 if [ "${SCRATCH:-0}" = 1 ]; then
   target=/tmp/vseed
   [ -d $target ] || git -C /repo worktree add -q --detach $target HEAD
-  git -C $target checkout -q --detach $(git -C /repo rev-parse HEAD)
+  git -C $target checkout -q --detach ${BASE:-$(git -C /repo rev-parse HEAD)}
   export VERIF_REPO=$target
 fi
 cd $target || exit 1
